@@ -7,6 +7,7 @@ import (
 	"fmt"
 	"reflect"
 	"strings"
+	"sync/atomic"
 
 	"verif/engine/core"
 	"verif/gen/keys"
@@ -14,6 +15,7 @@ import (
 	"verif/ref/jcs"
 	"verif/ref/sidetree"
 
+	"github.com/trustbloc/sidetree-go/pkg/api/operation"
 	"github.com/trustbloc/sidetree-go/pkg/api/protocol"
 	"github.com/trustbloc/sidetree-go/pkg/versions/1_0/operationparser"
 )
@@ -70,7 +72,8 @@ func Run(r *core.Run) {
 	r.Rule = "valid requests: 4 types x 5 key types x 8 patch kinds (+ nonce-carrying keys, anchor origin variants, sha2-512 for one hash at a time) x configurations varying one axis at a time " +
 		"(each size limit exactly at and one below the request's size, each list with / without the used value and with an irrelevant extra value, nonce size n/n-1/n+1, every other numeric parameter changed); " +
 		"plus one labelled mutation per rule of the statement; oracle: independent acceptance predicate, both directions, and the returned operation's type, suffix, id, bytes and anchor origin; " +
-		"distinct = distinct (request, configuration) pairs; non-trivial = all"
+		"every (request, configuration) pair also as the second call on one shared parser after each of 6 first calls (the same request through each batch-mode entry point and through Parse, the neighbouring request in both modes); " +
+		"distinct = distinct (request, configuration) pairs and two-call histories; non-trivial = all"
 	r.Assumptions = []string{"independent acceptance predicate ref/sidetree.Acceptable + ref/rules written from the statement", "signature validity and delta binding of update/recover are not part of the non-batch parser's rules (C02)",
 		"anchor-origin and time validators are the permissive defaults"}
 	const ns = "did:sidetree"
@@ -305,6 +308,7 @@ func Run(r *core.Run) {
 		return cs
 	}
 
+	var histories atomic.Int64
 	core.Parallel(len(reqs), func(i int) {
 		rc := reqs[i]
 		cfgs := []cfgCase{{"baseline", base}}
@@ -318,11 +322,17 @@ func Run(r *core.Run) {
 				core.Engine("c07: valid request %s is not acceptable to the reference under the baseline", rc.label)
 			}
 			id := rc.label + "@" + cc.name
-			r.Case(id, func() *core.Fail {
-				op, err := operationparser.New(cc.p).Parse(ns, rc.bytes)
+			judge := func(id string, op *operation.Operation, err error, history string) *core.Fail {
 				det := M{"request": string(rc.bytes), "configuration": cc.name, "expected_acceptable": ok}
+				if history != "" {
+					det["calls_before_on_the_same_parser"] = history
+				}
 				if (err == nil) != ok {
-					return &core.Fail{Key: id, What: fmt.Sprintf("request %s under %s: parser says %v, the protocol rules say acceptable=%v", rc.label, cc.name, err, ok), Detail: det}
+					after := ""
+					if history != "" {
+						after = " (after " + history + " on the same parser)"
+					}
+					return &core.Fail{Key: id, What: fmt.Sprintf("request %s under %s%s: parser says %v, the protocol rules say acceptable=%v", rc.label, cc.name, after, err, ok), Detail: det}
 				}
 				if err != nil {
 					if op != nil {
@@ -337,8 +347,36 @@ func Run(r *core.Run) {
 					return &core.Fail{Key: id, What: fmt.Sprintf("returned operation carries anchor origin %s, the request's is %s", core.J(op.AnchorOrigin), core.J(want.AnchorOrigin)), Detail: det}
 				}
 				return nil
+			}
+			r.Case(id, func() *core.Fail {
+				op, err := operationparser.New(cc.p).Parse(ns, rc.bytes)
+				return judge(id, op, err, "")
 			})
 			r.Observe(id)
+			// histories: a parser is a long-lived shared component, so the verdict on a request must not depend on the calls made
+			// before on the same instance - the same request in batch mode (through each batch-mode entry point), or the neighbouring request
+			prev := reqs[(i+len(reqs)-1)%len(reqs)]
+			for hi, h := range []struct {
+				name string
+				f    func(p *operationparser.Parser)
+			}{
+				{"ParseOperation(batch) of the same request", func(p *operationparser.Parser) { _, _ = p.ParseOperation(ns, rc.bytes, true) }},
+				{"GetRevealValue of the same request", func(p *operationparser.Parser) { _, _ = p.GetRevealValue(rc.bytes) }},
+				{"GetCommitment of the same request", func(p *operationparser.Parser) { _, _ = p.GetCommitment(rc.bytes) }},
+				{"Parse of the same request", func(p *operationparser.Parser) { _, _ = p.Parse(ns, rc.bytes) }},
+				{"Parse of the previous request " + prev.label, func(p *operationparser.Parser) { _, _ = p.Parse(ns, prev.bytes) }},
+				{"ParseOperation(batch) of the previous request " + prev.label, func(p *operationparser.Parser) { _, _ = p.ParseOperation(ns, prev.bytes, true) }},
+			} {
+				h := h
+				hid := fmt.Sprintf("%s/after-%d", id, hi)
+				r.Case(hid, func() *core.Fail {
+					p := operationparser.New(cc.p)
+					h.f(p)
+					op, err := p.Parse(ns, rc.bytes)
+					return judge(hid, op, err, h.name)
+				})
+			}
+			histories.Add(6)
 			if ok {
 				r.Class("acceptable")
 			} else {
@@ -348,6 +386,8 @@ func Run(r *core.Run) {
 	})
 	r.Sample(M{"request_label": reqs[3].label, "request": string(reqs[3].bytes), "configuration": "MaxOperationSize=len-1"})
 	r.Sample(M{"request_label": reqs[len(reqs)-1].label, "request": string(reqs[len(reqs)-1].bytes), "configuration": "baseline"})
+	r.Extra["two_call_histories_on_one_parser"] = histories.Load()
+	r.AddDistinct(histories.Load())
 	r.Require("acceptable", 500)
 	r.Require("not-acceptable", 300)
 }
